@@ -8,6 +8,10 @@
  *   new t                              table mode:  palette  prints xterm256[] as the C compiler sees it
  *   renew ...                          same as `new ...` but inside the running history (the harness forks once per `new`):
  *                                      the current terminal is destroyed and a fresh one is built
+ *   new x|g ... <pen>                  (one more token) the history starts with <pen> in force: tickit_term_setpen(<pen>) is
+ *                                      issued as part of the construction; the observation continues with ` init ` followed by
+ *                                      the observation of that request.  (The pen in force is part of the history's head line,
+ *                                      so that a failure of a later request which depends on it keeps it when the history is shrunk.)
  *   setpen <pen> | chpen <pen>         <pen> = `-` or a comma separated list in attribute order, e.g.
  *                                      fg=200#0a0b0c,bg=-1,b=1,u=2,i=0,rv=1,strike=0,af=3,blink=1,sizepos=2
  *
@@ -167,8 +171,12 @@ static void obs_cached(void)
   obs(" pen=%s", buf);
 }
 
+static void do_request(int set, const char *pentext);
+
 static void op_new(int argc, char **argv)
 {
+  const char *initpen = NULL;
+  if(argc == 6 && (strcmp(argv[1], "x") == 0 || strcmp(argv[1], "g") == 0)) { initpen = argv[5]; argc = 5; }
   if(tt) {                      /* `renew`: a fresh terminal inside the same forked child */
     tickit_term_unref(tt);
     tt = NULL; gd = NULL; mode = 0; outn = 0;
@@ -191,6 +199,7 @@ static void op_new(int argc, char **argv)
     obs("x rgb8=%d colon=%d ", v_rgb8, v_colon);
     obs_out();
     obs_cached();
+    if(initpen) { obs(" init "); do_request(1, initpen); }
   }
   else if(argc == 5 && strcmp(argv[1], "g") == 0) {
     mode = 'g';
@@ -202,6 +211,7 @@ static void op_new(int argc, char **argv)
     if(!tt) { obs("build-failed"); mode = 0; return; }
     obs("g colors=%d", gd->colors);
     obs_cached();
+    if(initpen) { obs(" init "); do_request(1, initpen); }
   }
   else if(argc == 2 && strcmp(argv[1], "t") == 0) {
     mode = 't';
@@ -226,7 +236,12 @@ static void engine_op(int argc, char **argv)
   else if(strcmp(argv[0], "chpen") == 0) set = 0;
   else { obs("bad-op"); return; }
 
-  TickitPen *pen = parse_pen(argv[1]);
+  do_request(set, argv[1]);
+}
+
+static void do_request(int set, const char *pentext)
+{
+  TickitPen *pen = parse_pen(pentext);
   if(!pen) { obs("bad-op"); return; }
   char before[512], after[512];
   fmt_pen(before, sizeof before, pen);
